@@ -4,7 +4,7 @@ Proof: lean/Reduino/Props/C01.lean: translation correctness of `tr` / `tr2` on t
 source = C semantics of the emitted program, every N; strict reading of `/` and `%`, see TRUSTED).
 Ties: T (text rendered from the model's `tr` vs the real emit(parse(...))), S_py (model Python semantics vs CPython),
 S_c (model C semantics vs the compiled sketch).  Oracle E: CPython trace vs compiled-firmware trace of the same script,
-on the fragment and on a stream of constructs just outside it (helpers, lists, comprehensions, f-strings, tuple assignments
+on the fragment (since W6 with helper functions called at statement level) and on a stream of constructs just outside it (helper calls inside expressions, lists, comprehensions, f-strings, tuple assignments
 whose right-hand sides have side effects or reach the targets through helper functions reading / writing globals)."""
 from __future__ import annotations
 
@@ -20,8 +20,17 @@ TRUSTED = [
     "fragment: int/bool values, + - *, bitwise & | ^, // and %, abs(e), min/max over int-typed operands (n-ary calls = left fold), unary minus, comparisons, "
     "and/or/not over bools, conditional expressions, assignment, augmented assignment (every operator), tuple assignment to already declared names of "
     "the right-hand sides' types (W5), if/elif/else, while, for-range, break, serial write "
-    "of ints and strings, sleep; names first assigned at top level or (tr2) one block below it; helper functions, lists, floats, / ** << >> and `continue` are "
+    "of ints and strings, sleep; names first assigned at top level or (tr2) one block below it; lists, floats, / ** << >> and `continue` are "
     "outside the theorem and exercised only by the end-to-end oracle",
+    "helper functions (W6): `def`s before the prologue, called at statement level (`f(args)`, `x = f(args)` with x declared), int/bool/string parameters and one "
+    "signature per helper, body over parameters and locals only (locals first assigned at the top level of the body, parameters never assigned, no tuples, no "
+    "module-level names), at most one trailing return, earlier helpers only (no recursion).  The call statement of the model CARRIES the called definition "
+    "(the driver fills it in from the `defs` list: `Prog.resolve`; `tr` checks `Prog.resolved`); the model's frame is fresh, so a module-level name in a body is a "
+    "NameError of the model (CPython would read it: such scripts are not generated; K01j is the known defect about writes).  Emitted signature as MEASURED: the "
+    "def-time parse types every parameter int, only `x = f(args)` requests the argument types, a call statement requests nothing (`Prog.sigsOk`: a helper never "
+    "called with a target has all-int parameters; `funCallsStable`: value calls inside a body request the same types under both parses); prototypes only when "
+    "more than one definition is emitted.  T compares prototypes, definitions (local declarations at first assignment, return) and call lines; S_py / S_c tie the "
+    "call semantics of the model to CPython and g++.  C06's `wf`/`Closed` do not cover sketches with calls yet (g++ compiles each generated one in S_c)",
     "text (W13): string literals of printable ASCII, string-typed names (declaration, assignment, tuple assignment, promotion), conditional expressions over "
     "strings, str(e) of int-/string-typed e (emitted String(e)), + on two strings (literal left operand emitted as String(\"...\"); s += e), f-strings (the generator prints f\"..\" and sends the model the left fold "
     "of + over the parts that `_to_c_expr` emits for a JoinedStr — a formatted value is String(e), a plain f-string a literal; T ties that reading to the emitted text, "
@@ -42,7 +51,7 @@ TRUSTED = [
     "W14 list comprehension over range(a, b, s): `Fw/ListRange.lean` mirrors the helper template's counting walk and bound-checked fill walk (theorems for all a, b and s ≠ 0: "
     "the block holds exactly Python's range, no store outside it); C int unbounded there too (`exit_value_up/down`: no value beyond stop + step is computed), the lambda body a pure "
     "Int → Int (tied with affine bodies m*t + c, element type int); step 0: helper returns the empty list where CPython raises ValueError (counted, no oracle verdict)",
-    "helper functions are outside the model: a tuple assignment whose values call helpers that read or write the globals being re-bound (all values before any "
+    "helper calls INSIDE expressions are outside the model: a tuple assignment whose values call helpers that read or write the globals being re-bound (all values before any "
     "store) is checked by E only, on pinned and random scripts (`helper_tuple_scripts`)",
     "harness/langgen.py printers (Python text and S-expression of one tree), harness/pyoracle.py (CPython + host modules), mock core + host g++",
 ]
@@ -72,6 +81,31 @@ FIXED_TUPLES = [
              ("while", ("cmp", "lt", V("n1"), I(3)), [("aug", "n1", "add", I(1)), ("if", ("cmp", "gt", V("a"), V("b")), [("tup", ["a", "b"], [("bin", "sub", V("a"), V("b")), V("b")])], [("tup", ["b", "a"], [("bin", "sub", V("b"), V("a")), V("a")])]),
                                                     ("tup", ["a", "b"], [("bin", "add", V("a"), I(1)), ("bin", "add", V("b"), V("n1"))])]),
              ("tup", ["a", "b"], [V("b"), V("a")]), ("wr", V("a")), ("wr", V("b"))],
+     "loop": None},
+]
+
+
+# W6: pinned programs with helper functions (procedure, value-returning helpers of every type, a helper calling an earlier one, calls in
+# nested blocks and in the main loop, locals declared at the top level of the body, loops and `break` inside a body)
+FIXED_HELPERS = [
+    {"helpers": [
+        {"name": "shout", "params": [("v", "int")], "body": [("wr", V("v")), ("sl", I(5))], "ret": None, "rty": None},
+        {"name": "scale", "params": [("v", "int"), ("flag", "bool")],
+         "body": [("as", "t", ("bin", "mul", V("v"), I(2))), ("if", V("flag"), [("as", "t", ("bin", "add", V("t"), I(1)))], []),
+                  ("as", "k", I(0)), ("while", ("cmp", "lt", V("k"), I(2)), [("aug", "t", "add", V("k")), ("aug", "k", "add", I(1))]),
+                  ("call", None, "shout", [V("t")])], "ret": V("t"), "rty": "int"},
+        {"name": "lab", "params": [("z", "string"), ("n", "int")], "body": [("as", "r", ("bin", "add", V("z"), ("str", V("n"))))], "ret": V("r"), "rty": "string"},
+        {"name": "big", "params": [("n", "int")], "body": [("as", "g", ("cmp", "gt", V("n"), I(20)))], "ret": ("or", V("g"), ("cmp", "lt", V("n"), I(0))), "rty": "bool"}],
+     "pre": [("as", "a", I(0)), ("as", "p", ("b", False)), ("as", "s", ("s", "a")), ("call", "a", "scale", [I(4), ("b", True)]), ("call", None, "shout", [V("a")]),
+             ("call", "s", "lab", [("s", "q"), V("a")]), ("wr", V("s")), ("call", "p", "big", [V("a")]),
+             ("if", V("p"), [("call", None, "shout", [I(1)])], [("call", "a", "scale", [V("a"), V("p")])])],
+     "loop": [("call", "a", "scale", [V("a"), ("b", False)]), ("call", None, "scale", [I(1), ("b", True)]), ("call", "p", "big", [V("a")]),
+              ("for", "i1", I(2), [("call", None, "shout", [("bin", "add", V("i1"), I(0))])])]},
+    {"helpers": [
+        {"name": "count", "params": [("n", "int"), ("stop", "int")],
+         "body": [("as", "acc", I(0)), ("for", "j1", V("n"), [("if", ("cmp", "eq", V("j1"), V("stop")), [("brk",)], []), ("aug", "acc", "add", V("j1")), ("wr", V("acc"))])],
+         "ret": ("bin", "add", V("acc"), I(100)), "rty": "int"}],
+     "pre": [("as", "a", I(3)), ("call", "a", "count", [I(5), V("a")]), ("wr", V("a")), ("call", None, "count", [I(2), I(9)])],
      "loop": None},
 ]
 
@@ -479,6 +513,12 @@ def run(ctx: Ctx) -> int:
     # conditions written as chained comparisons (`a < b <= c`): the model is given the conjunction they abbreviate, so T is skipped for them
     progs += [langgen.G(rng, max_depth=rng.choice([2, 3]), chains=True, strings=True).program() for _ in range(ctx.n(50, 600))]
     progs += FIXED_TUPLES
+    # W6: programs with helper functions (a PRNG of their own: the streams above are unchanged): procedures and value-returning helpers
+    # called at statement level.  They are in `InF` (generator invariant below) and go through T, S_py, S_c, E like the others
+    import random as _random
+    hr = _random.Random(f"{ctx.seed}:C01:helpers")
+    progs += FIXED_HELPERS
+    progs += [langgen.add_helpers(langgen.G(hr, max_depth=hr.choice([1, 2, 3]), strings=True).program(), hr) for _ in range(ctx.n(60, 1200))]
     n_plain = len(progs) + 1
     # every top-level `break` directly in the main loop must be rejected (through if nesting too)
     progs.append({"pre": [("as", "a", ("i", 1))], "loop": [("wr", ("v", "a")), ("if", ("cmp", "gt", ("v", "a"), ("i", 0)), [("brk",)], [])]})
@@ -504,6 +544,11 @@ def run(ctx: Ctx) -> int:
         if "(tup " in sx:
             ctx.count("programs-using:tuple-assignment")
             ctx.count("tuple-assignments", sx.count("(tup "))
+        if p.get("helpers"):
+            ctx.count("programs-with-helpers")
+            ctx.count("helper-definitions", len(p["helpers"]))
+            ctx.count("helper-calls", sx.count("(call "))
+            ctx.count("helper-calls-with-target", sx.count("(call ") - sx.count("(call _ "))
         if t.startswith("ok") and not t.endswith(" in"):
             ctx.tie_diff("generator invariant (generated programs are in InF / promotion programs in InF2)", {"script": src}, t[-4:], "")
         if "(s x" in sx:
